@@ -525,14 +525,18 @@ def record_table(ctx):
                 raise AnalysisError("idiom changed: settings record splat %s" % norm(v))
     restored = {}
     g = build_cfg(sy.node)
+    setts = [nd.ast.targets[0].id for nd in g.nodes if nd.kind == "stmt" and isinstance(nd.ast, ast.Assign) and isinstance(nd.ast.targets[0], ast.Name) and isinstance(nd.ast.value, ast.Call)
+             and norm(nd.ast.value.func) in ("self.load_info", "read_from_disk") ]
+    need(len(setts) == 1, "idiom changed: _sync_info_from_disk does not bind the loaded settings record to one name")
+    SETT = setts[0]
     for nd in g.nodes:
-        if nd.kind == "stmt" and isinstance(nd.ast, ast.Assign) and isinstance(nd.ast.value, ast.Subscript) and norm(nd.ast.value.value) == "settings" \
+        if nd.kind == "stmt" and isinstance(nd.ast, ast.Assign) and isinstance(nd.ast.value, ast.Subscript) and norm(nd.ast.value.value) == SETT \
                 and isinstance(nd.ast.value.slice, ast.Constant) and norm(nd.ast.targets[0]).startswith("self."):
             restored[norm(nd.ast.targets[0])] = nd.ast.value.slice.value
         if nd.kind == "for" and isinstance(nd.ast.target, ast.Name):
             var = nd.ast.target.id
             body = nd.ast.body
-            if len(body) == 1 and isinstance(body[0], ast.Expr) and norm(body[0].value) == "setattr(self, %s, settings[%s])" % (var, var):
+            if len(body) == 1 and isinstance(body[0], ast.Expr) and norm(body[0].value) == "setattr(self, %s, %s[%s])" % (var, SETT, var):
                 try:
                     for it in ConstFold(ctx, sy).ev(nd.ast.iter):
                         restored["self." + it] = it
